@@ -52,10 +52,19 @@ import (
 	"verif/harness/vh"
 )
 
+// childPerCase: the parent's watchdog per hostile case; longer than the child's own patient watchdog
+// (42 s), it only bounds hangs of the decoder itself
+const childPerCase = 75 * time.Second
+
 const (
 	allocK = 1024      // allowed allocated bytes per input byte …
 	allocC = 64 * 1024 // … plus this constant
 )
+
+var budget time.Duration
+var started time.Time
+
+func overBudget() bool { return time.Since(started) > budget }
 
 // d01Present: probe of the root cause at start — does ReadBytes accept a short read?  While it
 // does, a prefix accepted by a decoder whose inner stream the harness cannot observe (sub-stream
@@ -527,21 +536,38 @@ func main() {
 	}
 
 	d01Present = vh.Guard(func() { gio.NewDataInputX([]byte{1, 2, 3}).ReadLong() }).OK()
+	budget = 420 * time.Second
+	if env.Thorough {
+		budget = 2400 * time.Second
+	}
+	started = time.Now()
+	stage := func(name string, f func()) {
+		if overBudget() {
+			rep.Note("stage-cut-short: %s not run (time budget of the harness used up)", name)
+			rep.Count("stage-cut-short:" + name)
+			return
+		}
+		f()
+		rep.Write(env.Out) // the report exists whatever happens in a later stage
+	}
 	encs := generate(rng, env.Thorough, rep)
 	rep.Note("%d valid encodings generated", len(encs))
 	for i := 0; i < len(encs) && i < 400; i += 57 {
 		rep.Sample(map[string]interface{}{"type": encs[i].typ, "kind": encs[i].kind, "len": len(encs[i].b), "hex": vh.Clip(vh.Hex(encs[i].b), 120)})
 	}
 
-	prefixSweep(env, rep, rng, encs)
-	streamSweep(env, rep, rng, encs)
-	hostileSweep(env, rep, rng, encs, self)
-	nestedSweep(env, rep, rng, self)
-	retrySweep(env, rep, rng, encs)
-	collisionHistory(env, rep, rng)
-	pooledHistory(env, rep, rng)
-	witnesses(env, rep, self)
-	olderVersion(env, rep, rng)
+	rep.Write(env.Out)
+	stage("prefix", func() { prefixSweep(env, rep, rng, encs) })
+	stage("large", func() { largeSweep(env, rep, rng) })
+	stage("alias", func() { aliasSweep(env, rep, rng, encs) })
+	stage("stream", func() { streamSweep(env, rep, rng, encs) })
+	stage("retry", func() { retrySweep(env, rep, rng, encs) })
+	stage("collision", func() { collisionHistory(env, rep, rng) })
+	stage("pooled", func() { pooledHistory(env, rep, rng) })
+	stage("witnesses", func() { witnesses(env, rep, self) })
+	stage("older-version", func() { olderVersion(env, rep, rng) })
+	stage("nested", func() { nestedSweep(env, rep, rng, self) })
+	stage("hostile", func() { hostileSweep(env, rep, rng, encs, self) })
 	rep.Write(env.Out)
 }
 
@@ -732,7 +758,7 @@ func hostileSweep(env *vh.Env, rep *vh.Report, rng *vh.Rng, encs []enc, self str
 		if len(cases) == 0 {
 			return
 		}
-		res := runChildren(self, allocK, allocC, cases, 12, 20*time.Second)
+		res := runChildren(self, allocK, allocC, cases, 12, childPerCase)
 		judgeHostile(env, rep, cases, res, true)
 		total += len(cases)
 		cases = cases[:0]
@@ -776,6 +802,11 @@ func hostileSweep(env *vh.Env, rep *vh.Report, rng *vh.Rng, encs []enc, self str
 		if len(cases) >= 150000 {
 			flush()
 		}
+		if overBudget() {
+			rep.Note("stage-cut-short: hostile sweep stopped after %d inputs (time budget)", total)
+			rep.Count("stage-cut-short:hostile")
+			break
+		}
 	}
 	flush()
 	rep.Note("%d hostile inputs", total)
@@ -798,7 +829,7 @@ func judgeHostile(env *vh.Env, rep *vh.Report, cases []hcase, res []hres, model 
 			if hi > len(lone) {
 				hi = len(lone)
 			}
-			r2 := runChildren(self, allocK, allocC, lone[lo:hi], hi-lo, 20*time.Second)
+			r2 := runChildren(self, allocK, allocC, lone[lo:hi], hi-lo, childPerCase)
 			for k := range r2 {
 				if r2[k].site != "?" && r2[k].site != "-" && r2[k].site != "" {
 					res[loneIdx[lo+k]].site = r2[k].site
@@ -821,7 +852,7 @@ func judgeHostile(env *vh.Env, rep *vh.Report, cases []hcase, res []hres, model 
 		}
 		if len(over) > 0 {
 			self, _ := os.Executable()
-			r2 := runChildren(self, allocK, allocC, over, 4, 20*time.Second)
+			r2 := runChildren(self, allocK, allocC, over, 4, childPerCase)
 			for k := range r2 {
 				if (r2[k].class == "value" || r2[k].class == "panic") && r2[k].alloc < res[overIdx[k]].alloc {
 					res[overIdx[k]].alloc = r2[k].alloc
@@ -846,6 +877,8 @@ func judgeHostile(env *vh.Env, rep *vh.Report, cases []hcase, res []hres, model 
 		rep.Count("hostile-class:" + r.class)
 		rc := replayCase{Mode: "hostile", Kind: c.Kind, Typ: c.Typ, Hex: c.Hex, What: c.What}
 		switch r.class {
+		case "skipped":
+			rep.Count("hostile:skipped-after-established-hang:" + c.Typ)
 		case "hang":
 			rep.Fail("property", r.site+":hangs-after-failed-decode",
 				fmt.Sprintf("%s: after the lazy decode of a %d-byte corrupted input (%s) failed, calling %s (or another accessor) on the same object again never returns", c.Typ, n, c.What, r.site), rc)
@@ -920,7 +953,7 @@ func judgeHostile(env *vh.Env, rep *vh.Report, cases []hcase, res []hres, model 
 			again = append(again, cases[s.i], cases[s.i])
 		}
 		self, _ := os.Executable()
-		res2 := runChildren(self, allocK, allocC, again, 4, 20*time.Second)
+		res2 := runChildren(self, allocK, allocC, again, 4, childPerCase)
 		for k, s := range suspects {
 			c := cases[s.i]
 			a := res[s.i].alloc
@@ -964,7 +997,7 @@ func witnesses(env *vh.Env, rep *vh.Report, self string) {
 	for _, w := range witnessList {
 		cases = append(cases, hcase{Kind: w.kind, Typ: "witness", Hex: w.hex, What: w.what})
 	}
-	res := runChildren(self, allocK, allocC, cases, 4, 20*time.Second)
+	res := runChildren(self, allocK, allocC, cases, 4, childPerCase)
 	for i, w := range witnessList {
 		r := res[i]
 		n := len(w.hex) / 2
@@ -1122,7 +1155,7 @@ func runReplay(env *vh.Env, rep *vh.Report, self string) {
 		}
 	}
 	if len(hc) > 0 {
-		res := runChildren(self, allocK, allocC, hc, 4, 20*time.Second)
+		res := runChildren(self, allocK, allocC, hc, 4, childPerCase)
 		judgeHostile(env, rep, hc, res, false)
 	}
 }
